@@ -8,7 +8,7 @@ def main(chk: core.Check, replay):
         return core.replay_generic(chk, replay)
     quick = chk.tier == "quick"
     consts = dict(CONSTS, NInter=1 if quick else 2, FreeSchedule=False, EmitMod=0,
-                  BaseMod=7 if quick else 53, FaultEmitMod=41 if quick else 67)
+                  BaseMod=7 if quick else 53, FaultEmitMod=131 if quick else 67)
     cfg = tlc.make_cfg(spec="FSpec", constants=consts,
                        invariants=["C08_AcceptIffWellFormed", "C08_FaultsAreIllFormed", "C08_NoSilentChoice", "FEmit"])
     res = tlc.run_tlc("MC_IllFormed", cfg, workers=chk.nproc, timeout=3000, constants_for_summary=consts)
